@@ -238,6 +238,18 @@ func GenLinuxCase(tp *tape.Tape) *LinuxCase {
 						r.Opts[o].Neg = !r.Opts[o].Neg
 					}
 					cs.Ops = append(cs.Ops, fmt.Sprintf("option %s of rule %d in %s differs", old.Key, j, c.Name))
+					// Sometimes a second option of the same rule differs, too.
+					if len(r.Opts) > 1 && tp.Next(2) == 0 {
+						o2 := (o + 1 + tp.Next(len(r.Opts)-1)) % len(r.Opts)
+						if r.Opts[o2].Key != "-j" && r.Opts[o2].Key != "-g" && r.Opts[o2].Key != "-m" {
+							r.Opts[o2].Val += "9"
+							if r.Opts[o2].Val == "9" {
+								r.Opts[o2].Neg = !r.Opts[o2].Neg
+								r.Opts[o2].Val = ""
+							}
+							cs.Ops = append(cs.Ops, fmt.Sprintf("option %s of the same rule differs, too", r.Opts[o2].Key))
+						}
+					}
 				}
 			}
 		case 6:
